@@ -39,3 +39,72 @@ def check_seq(prop, tier, seed):
 
 
 PLANS = {p: check_seq for p in ["C02", "C04", "C07", "C08", "C09", "C10", "C13", "C14", "C15"]}
+
+
+def geo_consts(geo):
+    ho = 11 if geo.startswith("16k") else 9
+    th = {"th4": 4, "th1": 1, "th2": 2, "th8": 8, "16k": 4, "16k_th1": 1}[geo]
+    return th, ho
+
+
+def init_counts(geo, tier):
+    th, ho = geo_consts(geo)
+    hf = 1 << ho
+    tf = th * hf
+    top = 3 * tf + hf if tier == "quick" else 3 * tf + 2 * hf
+    if geo.startswith("16k") or geo == "th8":
+        top = 2 * tf + hf
+    pts = set([0, 1, 2, 63, 64, 65])
+    near = 3 if tier == "quick" else 65
+    b = hf
+    while b <= top:
+        for d in range(-near, near + 1):
+            pts.add(b + d)
+        if tier == "quick":
+            pts.update([b - 64, b - 65, b + 64, b + 65, b - 63, b + 63])
+        b += hf
+    step = 509 if tier == "quick" else 61
+    pts.update(range(1, top, step))
+    return sorted(p for p in pts if 0 <= p <= top)
+
+
+def check_c06(prop, tier, seed):
+    res = Result(prop, tier, seed, "model_checking")
+    geos = ["th4", "th1"] if tier == "quick" else ["th4", "th1", "th2", "th8", "16k"]
+    vlib.build_all(geos)
+    jobs = []
+    total = 0
+    for g in geos:
+        cs = init_counts(g, tier)
+        total += len(cs)
+        chunk = 6 if tier == "quick" else 8
+        for i in range(0, len(cs), chunk):
+            jobs.append((g, ["init", "counts=" + ",".join(map(str, cs[i:i + chunk]))]))
+    gen_and_validate(res, jobs, [prop])
+    res.cov["frame_counts"] = total
+    res.cov["rule"] = ("for every frame count n in a sweep (dense near every huge-frame / tree boundary, geometries %s): "
+                       "fresh FreeAll allocator must observe exactly Abs!InitFr(n), allocate base frames until OOM "
+                       "(with drains) and end with no free frame and no frame >= n handed out; fresh AllocAll allocator "
+                       "must observe InitFr('alloc'), accept one free per whole huge frame (huge order) and per other "
+                       "frame (order 0), reject all of them a second time, and then equal a FreeAll allocator; "
+                       "validated by TLC (TraceAbs: Reset, BulkGet, BulkPut, SeqDrain)" % geos)
+    return res
+
+
+def check_c11(prop, tier, seed):
+    res = Result(prop, tier, seed, "model_checking")
+    geos = ["th1", "th4"] if tier == "quick" else ["th1", "th4", "th2", "th8"]
+    vlib.build_all(geos)
+    n = 4 if tier == "quick" else 24
+    jobs = [(g, ["c11", "seed=%d" % (seed * 100 + i), "runs=%d" % (6 if tier == "quick" else 12)])
+            for g in geos for i in range(n)]
+    gen_and_validate(res, jobs, [prop])
+    res.cov["rule"] = ("single-slot histories over 2-4 trees: exhaust memory through slot 0 of class 0, free subsets "
+                       "(1 frame, 2^k frames of the slot's own tree, random subsets; each batch through the slot or "
+                       "without a slot), allocate again until OOM; TLC (TraceAbs!BulkGet, C11 predicate) demands that "
+                       "OOM is reported only when no frame is free")
+    return res
+
+
+PLANS["C06"] = check_c06
+PLANS["C11"] = check_c11
